@@ -621,3 +621,90 @@ func (n *SNode) Src2() string {
 	}
 	panic(specErr("type expression expected"))
 }
+
+// evalSplit evaluates a boolean spec and splits it into conjuncts (through &&, ==>, forall and
+// predicate bodies), so that every conjunct becomes its own small obligation.
+func (c *SpecCtx) evalSplit(n *SNode) []string {
+	switch n.Op {
+	case "bin":
+		switch n.Name {
+		case "&&":
+			return append(c.evalSplit(n.Args[0]), c.evalSplit(n.Args[1])...)
+		case "==>":
+			lhs := c.evalBool(n.Args[0])
+			var out []string
+			for _, g := range c.evalSplit(n.Args[1]) {
+				out = append(out, implies(lhs, g))
+			}
+			return out
+		}
+	case "forall":
+		saved := c.bound
+		nb := map[string]Val{}
+		for k, v := range saved {
+			nb[k] = v
+		}
+		var decl []string
+		for _, sv := range n.Vars {
+			c.e.names["bv"]++
+			vn := fmt.Sprintf("%s!%d", sv.Name, c.e.names["bv"])
+			var t types.Type = tInt
+			if sv.Type != "" && sv.Type != "int" {
+				t = c.e.P.parseType(c.pkg, sv.Type)
+			}
+			cs := flatten(t)
+			if len(cs) != 1 {
+				panic(specErr("quantified variable %s must be scalar", sv.Name))
+			}
+			decl = append(decl, fmt.Sprintf("(%s %s)", q(vn), cs[0].Sort))
+			nb[sv.Name] = scalar(t, q(vn))
+		}
+		c.bound = nb
+		parts := c.evalSplit(n.Args[0])
+		c.bound = saved
+		var out []string
+		for _, p := range parts {
+			if p == "true" {
+				continue
+			}
+			out = append(out, fmt.Sprintf("(forall (%s) %s)", strings.Join(decl, " "), p))
+		}
+		if len(out) == 0 {
+			out = []string{"true"}
+		}
+		return out
+	case "call":
+		pd := c.e.P.Preds[c.pkg+"."+n.Name]
+		if strings.Contains(n.Name, ".") {
+			pd = c.e.P.Preds[n.Name]
+		}
+		if pd == nil {
+			for _, cand := range c.e.P.Preds {
+				if cand.Name == n.Name {
+					pd = cand
+				}
+			}
+		}
+		if pd != nil && len(pd.Params) == len(n.Args) {
+			saved := c.bound
+			nb := map[string]Val{}
+			for k, v := range saved {
+				nb[k] = v
+			}
+			for i, p := range pd.Params {
+				if strings.TrimSpace(p) == "" {
+					continue
+				}
+				nb[strings.Fields(p)[0]] = c.eval(n.Args[i])
+			}
+			savedPkg := c.pkg
+			c.bound = nb
+			c.pkg = pd.Pkg
+			out := c.evalSplit(pd.Body)
+			c.bound = saved
+			c.pkg = savedPkg
+			return out
+		}
+	}
+	return []string{c.evalBool(n)}
+}
